@@ -16,11 +16,11 @@ ENGINE = 'E3-explicit-state-bfs'
 TECHNIQUE = ('explicit-state BFS over operation histories replayed on the real object, deduplicated by content + '
              'representation fingerprint, list-of-rows reference model checked through every observer in every state')
 RULE = ('initial arrays: lengths {(2,),(1,2),(2,2),(3,1,2)} x constructors {nested, flat+lengths, copy=False} x dtypes '
-        '{int64,float64}; alphabet: element / row / row-slice / (row,col-slice) / (slice,slice) / (slice|row list, stepped col-slice with steps 2,-1,-2) / paired-list / mask assignment / masked augmented assignment (also of an empty selection), '
+        '{int64,float64}; alphabet: element / row / same-length float row (promotes an int array) / row-slice / (row,col-slice) / (slice,slice) / (slice|row list, stepped col-slice with steps 2,-1,-2) / paired-list / mask assignment / masked augmented assignment (also of an empty selection), '
         'append (rows | RaggedArray | single row), augmented arithmetic (rebinding), plus non-mutating operators checked in '
         'every state; BFS depth 3 (T: 4); state key = (rows, dtype, representation fingerprint); non-trivial = state at depth>=1 '
         'whose representation fingerprint differs from its initial array')
-ASSUMPTIONS = ['values written are representable in the array dtype (no truncation semantics tested)',
+ASSUMPTIONS = ['values written are representable in the array dtype (no truncation semantics tested), except the whole-row write row_f whose promotion the list-of-rows model defines',
                'observer set: iteration, ra[i], ra[i,j] for every cell, flatten, _data vs rows, lengths, starts, size, shape, '
                'dtype, ==/< against a freshly built array, max/min/any/all']
 GUARDS = {'mask_allfalse': 20, 'append': 100, 'augmented': 100, 'operators_checked': 1000, 'alias_probe': 20,
@@ -53,6 +53,9 @@ def alphabet(rows):
     ops.append(('cell', -1, -1, 93))
     ops.append(('row', 0, [70 + k for k in range(L[0])]))
     ops.append(('row', n - 1, [80 + k for k in range(L[-1])]))
+    # a same-length float row: replacing a row of an integer array promotes the whole array, as concatenating the
+    # model's rows does (the one write whose value is NOT representable in the old dtype; ASSUMPTIONS)
+    ops.append(('row_f', 0, [70.5 + k for k in range(L[0])]))
     if n >= 2:
         ops.append(('rowslice', 0, 2, [[60 + k for k in range(L[0])], [65 + k for k in range(L[1])]]))
     ops.append(('int_slice', n - 1, 0, None, 55))
@@ -87,6 +90,10 @@ def apply_model(rows, op):
         rows[op[1]][op[2]] = op[3]
     elif k == 'row':
         rows[op[1]] = np.array(op[2], dtype=rows[0].dtype)
+    elif k == 'row_f':
+        rows[op[1]] = np.array(op[2], dtype=float)
+        dt = np.result_type(*[r.dtype for r in rows])
+        rows = [r.astype(dt) for r in rows]
     elif k == 'rowslice':
         rows[op[1]:op[2]] = [np.array(r, dtype=rows[0].dtype) for r in op[3]]
     elif k == 'int_slice':
@@ -134,6 +141,8 @@ def apply_real(A, op):
         A[op[1], op[2]] = op[3]
     elif k == 'row':
         A[op[1]] = np.array(op[2], dtype=A.dtype)
+    elif k == 'row_f':
+        A[op[1]] = np.array(op[2], dtype=float)
     elif k == 'rowslice':
         A[op[1]:op[2]] = ra.RaggedArray([np.array(r, dtype=A.dtype) for r in op[3]])
     elif k == 'int_slice':
